@@ -62,6 +62,23 @@ fn main() {
         }
         return;
     }
+    if args.len() >= 2 && args[1] == "c09-miri-sample" {
+        // resurrection-free C09 histories of the thorough generator, one per line
+        let seed: u64 = args.get(2).and_then(|s| s.parse().ok()).unwrap_or(20_260_922);
+        let n: usize = args.get(3).and_then(|s| s.parse().ok()).unwrap_or(64);
+        let mut run = 0u64;
+        let mut out = 0;
+        while out < n {
+            let mut rng = boa_sim::rng::Rng::derive(seed, "C09", run);
+            let v = boa_sim::props::c09::generate(&mut rng, Tier::Quick);
+            run += 1;
+            if v["resurrection"].as_bool() == Some(false) {
+                println!("{}", v["history"].as_str().unwrap_or(""));
+                out += 1;
+            }
+        }
+        return;
+    }
     if args.len() >= 2 && args[1] == "list" {
         for p in boa_sim::props() {
             println!("{}", p.id);
